@@ -57,6 +57,20 @@ def gen_case(rng):
       interactive = rng.random() < 0.7
       pre.append({'op': 'interactive', 'on': interactive})
   pre = [o for o in pre if o['op'] != 'clear']
+  if rng.random() < 0.3:
+    # a stored reference written with a short name that a later registration makes ambiguous: the configuration can
+    # no longer be printed, and is cleared like any other
+    tgt, cons = rng.choice(regs), rng.choice(regs)
+    bare = tgt['_selector'].split('.')[-1]
+    cls = [n for n, k in G.param_classes(cons).items() if k == 'valid']
+    if cls and refmodel.suffix_matches({r['_selector']: True for r in regs}, bare) == [tgt['_selector']]:
+      pre.append({'op': 'bind', 'scope': rng.choice(['', 'a']), 'sel': cons['_selector'], 'arg': rng.choice(cls),
+                  'val': {'ref': [[], tgt['_selector'], False], '_spelled': bare}, '_form': 'text', 'block': False})
+      late = G.gen_late_register(rng, next_obj[0] + 50)
+      late.update(name=bare, module='lm2', _pymodule='lm2', _selector='lm2.' + bare)
+      pre.append(late)
+      if rng.random() < 0.5:
+        pre.append({'op': 'finalize'})
   clear = {'op': 'clear', 'constants': rng.random() < 0.35}
   # which constants exist is decided by the reference run over the whole prefix (histories toggle
   # interactive mode themselves, so the local flag above is not the whole story)
